@@ -703,6 +703,10 @@ class TimeoutHandler(PoolThread):
         ), (None, None))
 
     def on_soft_timeout(self, job):
+        if job.ready():
+            # its result was processed after this scan took its snapshot
+            # of the cache (enforcing another job's limit can take a while)
+            return
         debug('soft time limit exceeded for %r', job)
         process, _index = self._process_by_pid(job._worker_pid)
         if not process:
